@@ -577,7 +577,7 @@ def c17(work, tier, seed):
         txt = pp.stdout + pp.stderr
         if "WARNING: DATA RACE" in txt:
             races += 1
-            d = os.path.join(vlib.ROOT, "replay", "C17")
+            d = os.path.join(vlib.OUTROOT, "replay", "C17")
             os.makedirs(d, exist_ok=True)
             path = os.path.join(d, "race-%s-seed%d.txt" % (what, seed))
             open(path, "w").write(txt[:20000])
@@ -810,7 +810,7 @@ def uci_scenarios(work, vh, rep, props, seed, tier, want_real=True):
     tr = []
     for name, r, crash, last in results:
         if crash:
-            d = os.path.join(vlib.ROOT, "replay", rep.prop)
+            d = os.path.join(vlib.OUTROOT, "replay", rep.prop)
             os.makedirs(d, exist_ok=True)
             path = os.path.join(d, "crash-%s-seed%d.txt" % (name, seed))
             open(path, "w").write("scenario: %s\n\n%s" % (last, crash))
